@@ -235,7 +235,10 @@ impl<T: Qcow2IoOps> Qcow2Dev<T> {
         key: usize,
         slice_off: usize,
         slice: B,
-    ) -> Qcow2Result<Option<Vec<(usize, AsyncLruCacheEntry<AsyncRwLock<B>>)>>> {
+    ) -> Qcow2Result<(
+        AsyncLruCacheEntry<AsyncRwLock<B>>,
+        Option<Vec<(usize, AsyncLruCacheEntry<AsyncRwLock<B>>)>>,
+    )> {
         let info = &self.info;
 
         log::trace!(
@@ -274,10 +277,13 @@ impl<T: Qcow2IoOps> Qcow2Dev<T> {
             }
 
             //commit all populated caches and make them visible
-            Ok(cache.commit_wmap())
+            let evicted = cache.commit_wmap();
+            drop(slice);
+            Ok((entry, evicted))
         } else {
             log::trace!("add_cache_slice: slice is already update");
-            Ok(None)
+            drop(slice);
+            Ok((entry, None))
         }
     }
 
@@ -288,17 +294,17 @@ impl<T: Qcow2IoOps> Qcow2Dev<T> {
         key: usize,
         slice_off: usize,
         slice: RefBlock,
-    ) -> Qcow2Result<()> {
-        match self
+    ) -> Qcow2Result<AsyncLruCacheEntry<AsyncRwLock<RefBlock>>> {
+        // keep holding the added entry, so that it can't be evicted by a
+        // concurrent insertion before the caller gets hold of it
+        let (entry, to_kill) = self
             .add_cache_slice(&self.refblock_cache, rt_e, key, slice_off, slice)
-            .await?
-        {
-            Some(to_kill) => {
-                log::warn!("add_rb_slice: cache eviction, slices {}", to_kill.len());
-                self.flush_cache_entries(to_kill).await
-            }
-            _ => Ok(()),
+            .await?;
+        if let Some(to_kill) = to_kill {
+            log::warn!("add_rb_slice: cache eviction, slices {}", to_kill.len());
+            self.flush_cache_entries(to_kill).await?;
         }
+        Ok(entry)
     }
 
     pub(crate) async fn get_refblock(
@@ -315,19 +321,17 @@ impl<T: Qcow2IoOps> Qcow2Dev<T> {
             return Ok(entry);
         }
 
-        self.add_rb_slice(
-            rt_e,
-            key,
-            cls.rb_slice_off_in_table(info),
-            RefBlock::new(info.refcount_order, 1 << info.rb_slice_bits, None),
-        )
-        .await?;
+        let added = self
+            .add_rb_slice(
+                rt_e,
+                key,
+                cls.rb_slice_off_in_table(info),
+                RefBlock::new(info.refcount_order, 1 << info.rb_slice_bits, None),
+            )
+            .await?;
 
-        if let Some(entry) = rb_cache.get(key) {
-            Ok(entry)
-        } else {
-            Err("Fail to load refcount block".into())
-        }
+        // prefer what the cache holds now (and refresh its lru stamp)
+        Ok(rb_cache.get(key).unwrap_or(added))
     }
 
     /// make sure reftable entry points to valid refcount block
